@@ -8,7 +8,7 @@
    0 <= x < 2^256; the first argument is the top of the stack.
    MACHINE LEVEL: at the end of the file. *)
 From Coq Require Import ZArith List Bool Zpow_facts.
-From VF Require Import Model.EvmSpec Model.EvmWord Proofs.EvmWord_lemmas.
+From VF Require Import Model.EvmSpec Model.EvmWord Model.EvmWordCorr Proofs.EvmWord_lemmas.
 Import ListNotations.
 Open Scope Z_scope.
 
@@ -219,6 +219,16 @@ Example C17_nonvacuous :
   both (fun o => w_clz o 0) 256 /\
   both (fun o => w_clz o 1) 255 /\
   both (fun o => w_clz o (W - 1)) 0.
+Proof. vm_compute. repeat split. Qed.
+
+(* the correspondence plumbing (Model/EvmWordCorr.v) on one step: SAR (0x1d) of -7 by 1 is -4; the check
+   accepts the right word and reports [spec; impl; word] for a wrong one *)
+Example C17_corr_step_example :
+  apply_op spec_ops 29 1 (neg 7) 0 = neg 4 /\ apply_op impl_ops 29 1 (neg 7) 0 = neg 4 /\
+  check_case tt [(W2 29 1 0 0 0 0  1152921504606846969 1152921504606846975 1152921504606846975 1152921504606846975 65535
+                        1152921504606846972 1152921504606846975 1152921504606846975 1152921504606846975 65535, [])] = None /\
+  check_case tt [(W2 29 1 0 0 0 0  1152921504606846969 1152921504606846975 1152921504606846975 1152921504606846975 65535
+                        0 0 0 0 0, [])] = Some (0, [neg 4; neg 4; 0], []).
 Proof. vm_compute. repeat split. Qed.
 
 (* ================================================================================================
